@@ -17,7 +17,7 @@ import (
 func init() {
 	Register(&Prop{
 		ID:   "C16",
-		Expl: "Decides the graph-shaped necessary condition of termination: no state is a sink for a silent peer. For every state of the four tables: (R1) a state whose action may return NoOp (a waiting state) has an exit that does not depend on the peer and survives restarts — it is FailOnrecover, or its action registers a chain watch whose callback events it accepts, or its re-execution by Recover can itself return a non-NoOp event that depends on the block height; in-memory timers alone do not count because a restart drops them; (R2) from every state some terminal state is reachable using only such exits and the events actions return; every event an action can return is accepted by its state (info); (R3) terminal actions return only Event_Done and every SendEvent/Recover call site in the service releases the channel when done; for a state that waits for the opening transaction's confirmation, per chain: the action (re-run by Recover) fails on a passed height on that chain's side, or every TxWatcher implementation wired in for the chain reads the window parameter it is given; (R4) every state that can be on disk (including the default state, which SendEvent persists before the first transition) is handled by Recover: Recover is evaluated for a record in that state (entry present, no action, its FailOnrecover flag) and must reach the code that finishes the swap before any error return; (R5) every callback that injects an event from outside the machine (confirmation, CSV, payment, timeout) reaches SendEvent on every path on which the swap was found: a skip may depend on the lookup, on an undecodable argument or on the callback's own arguments, and a skip that depends on the current state must let through every state that accepts the event.",
+		Expl: "Decides the graph-shaped necessary condition of termination: no state is a sink for a silent peer. For every state of the four tables: (R1) a state whose action may return NoOp (a waiting state) has an exit that does not depend on the peer and survives restarts — it is FailOnrecover, or its action registers a chain watch whose callback events it accepts, or its re-execution by Recover can itself return a non-NoOp event that depends on the block height; in-memory timers alone do not count because a restart drops them; (R2) from every state some terminal state is reachable using only such exits and the events actions return; every event an action can return is accepted by its state (info); (R3) terminal actions return only Event_Done and every SendEvent/Recover call site in the service releases the channel when done; for a state that waits for the opening transaction's confirmation, per chain: the action (re-run by Recover) fails on a passed height on that chain's side, or every TxWatcher implementation wired in for the chain reads the window parameter it is given; (R4) every state that can be on disk (including the default state, which SendEvent persists before the first transition) is handled by Recover: Recover is evaluated for a record in that state (entry present, no action, its FailOnrecover flag) and must reach the code that finishes the swap before any error return; (R5) every callback that injects an event from outside the machine (confirmation, CSV, payment, timeout) reaches SendEvent on every path on which the swap was found: a skip may depend on the lookup, on an undecodable argument or on the callback's own arguments, and a skip that depends on the current state must let through every state that accepts the event; (R6) in the watcher packages, a map entry that a function sets before it invokes a callback and that is tested (comma-ok lookup of the same map) as a reason to skip the swap is deleted on every path from the callback's return to the function's exit, unless that path removes the swap from the watch lists.",
 		NotD: "Fairness of watchers and services, actual time bounds, that failing services eventually succeed.",
 		Run:  runC16,
 	})
@@ -29,6 +29,7 @@ func runC16(c *an.Check) {
 	c.Rule("C16.R3", "terminal actions return Event_Done; every SendEvent/Recover caller removes the swap when done")
 	c.Rule("C16.R4", "every persistable state is recoverable")
 	c.Rule("C16.R5", "callbacks deliver their event to every state that accepts it")
+	c.Rule("C16.R6", "an in-flight marker that makes the watcher skip a swap is released on every exit after the callback")
 	if !needEffects(c, fxWaitConf, fxWaitCsv, fxBlockHeight) {
 		return
 	}
@@ -341,6 +342,9 @@ func runC16(c *an.Check) {
 		c16ReportDelivery(c, "C16.R5", root, c16AnalyseDelivery(c, ts, root, nil, nil, map[*ssa.Function]bool{}))
 	}
 	c.AtLeast("C16.R5", "event-injecting callbacks (confirmation, CSV, payment, timeout)", len(roots), 4)
+
+	// R6: in-flight markers of the watchers
+	c16InFlightMarkers(c)
 }
 
 // c16DoneReleased judges the `done` result (#0) of a SendEvent/Recover-like
@@ -1739,4 +1743,200 @@ func c16TimeoutCallbacks(c *an.Check, srcs []EventSource) []*ssa.Function {
 		}
 	}
 	return out
+}
+
+// ---- R6: in-flight markers are released -------------------------------------------------------------
+
+// c16InFlightMarkers looks, in the packages of the TxWatcher implementations, at
+// every function that invokes a func value (a registered callback). A marker is
+// a map entry that the function sets on a path to that invocation and whose
+// presence is tested somewhere in the package with a comma-ok lookup of the same
+// map (the "someone is already reporting this swap" skip). Every path from the
+// invocation to a return must delete the entry (directly, in a deferred call
+// that was registered before the invocation, or in a callee), or else take the
+// swap off the watch lists (delete the same key from another map of the
+// receiver): otherwise the swap is skipped forever.
+func c16InFlightMarkers(c *an.Check) {
+	w := c.W
+	rels := map[string]bool{}
+	for _, meth := range []string{"AddWaitForCsvTx", "AddWaitForConfirmationTx"} {
+		for _, m := range implementers(w, "swap", "TxWatcher", meth) {
+			if isDummy(w, m) {
+				continue
+			}
+			rels[w.FnRel(m)] = true
+			for _, ef := range w.Summary(m).Effects {
+				if ef.Info.Static != nil && w.InModule(ef.Info.Static) {
+					if r := w.FnRel(ef.Info.Static); r != "" && r != "log" && r != "swap" {
+						rels[r] = true
+					}
+				}
+			}
+		}
+	}
+	// comma-ok tests per map term, package wide
+	tested := map[string]bool{}
+	var fns []*ssa.Function
+	for _, fn := range prodFuncs(w) {
+		if !rels[w.FnRel(fn)] || isDummy(w, fn) || fn.Blocks == nil {
+			continue
+		}
+		fns = append(fns, fn)
+		for _, b := range fn.Blocks {
+			for _, in := range b.Instrs {
+				if lk, ok := in.(*ssa.Lookup); ok && lk.CommaOk {
+					if _, isMap := lk.X.Type().Underlying().(*types.Map); isMap {
+						tested[w.Term(lk.X)] = true
+					}
+				}
+			}
+		}
+	}
+	// deletes of map term mt (key term kt) made by fn itself
+	deletesIn := func(fn *ssa.Function, mt, kt string, sameMap bool) []ssa.Instruction {
+		var out []ssa.Instruction
+		for _, call := range an.Calls(fn) {
+			if w.Info(call).Name != "builtin:delete" || len(call.Common().Args) != 2 {
+				continue
+			}
+			if _, isDefer := call.(*ssa.Defer); isDefer {
+				continue
+			}
+			m, k := w.Term(call.Common().Args[0]), w.Term(call.Common().Args[1])
+			if (m == mt) == sameMap && strings.HasPrefix(m, "field:") && (k == kt || kt == "") {
+				out = append(out, call)
+			}
+		}
+		return out
+	}
+	nFn, nMarker := 0, 0
+	for _, fn := range fns {
+		var dyn []ssa.CallInstruction
+		for _, call := range an.Calls(fn) {
+			cc := call.Common()
+			if cc.IsInvoke() || cc.StaticCallee() != nil {
+				continue
+			}
+			if _, isB := cc.Value.(*ssa.Builtin); isB {
+				continue
+			}
+			if _, isGo := call.(*ssa.Go); isGo {
+				continue
+			}
+			if _, isDefer := call.(*ssa.Defer); isDefer {
+				continue
+			}
+			// a registered callback: the func value is read from a struct field
+			// (not a local func such as a context's cancel)
+			fromField := false
+			for _, l := range w.Sources(cc.Value, an.FlowOpts{}).Leaves {
+				if l.Kind == "field" {
+					fromField = true
+				}
+			}
+			if !fromField {
+				continue
+			}
+			dyn = append(dyn, call)
+		}
+		if len(dyn) == 0 {
+			continue
+		}
+		nFn++
+		for _, b := range fn.Blocks {
+			for _, in := range b.Instrs {
+				mu, ok := in.(*ssa.MapUpdate)
+				if !ok {
+					continue
+				}
+				mt, kt := w.Term(mu.Map), w.Term(mu.Key)
+				if !strings.HasPrefix(mt, "field:") || !tested[mt] {
+					continue
+				}
+				for _, d := range dyn {
+					if !pathAvoiding(mu, d, nil) {
+						continue // not set before this invocation
+					}
+					nMarker++
+					cons := w.FuncName(fn) + " in-flight-marker " + strings.TrimPrefix(mt, "field:")
+					pos := w.Pos(mu.Pos())
+					// released by a defer that is registered on every path to the invocation?
+					deferred := false
+					for _, call := range an.Calls(fn) {
+						df, isDefer := call.(*ssa.Defer)
+						if !isDefer || !an.MustPassInstr(d, []ssa.Instruction{df}) {
+							continue
+						}
+						if w.Info(call).Name == "builtin:delete" && len(df.Call.Args) == 2 && w.Term(df.Call.Args[0]) == mt {
+							deferred = true
+						}
+						if g := df.Call.StaticCallee(); g != nil && g.Blocks != nil {
+							for _, gc := range an.Calls(g) {
+								if w.Info(gc).Name == "builtin:delete" && len(gc.Common().Args) == 2 && w.Term(gc.Common().Args[0]) == mt {
+									deferred = true
+								}
+							}
+						}
+					}
+					if deferred {
+						c.OK("C16.R6", cons, pos, "the entry is deleted by a deferred call registered before the callback runs")
+						continue
+					}
+					rel := deletesIn(fn, mt, kt, true)
+					// callees that delete the entry of the same receiver map
+					opaque := false
+					for _, call := range an.Calls(fn) {
+						g := call.Common().StaticCallee()
+						if g == nil || !w.InModule(g) || g.Blocks == nil || g == fn {
+							continue
+						}
+						if _, isCall := call.(*ssa.Call); !isCall {
+							continue
+						}
+						if ds := deletesIn(g, mt, "", true); len(ds) > 0 {
+							all := true
+							for _, r := range an.Returns(g) {
+								if !an.MustPassInstr(r, ds) {
+									all = false
+								}
+							}
+							if all {
+								rel = append(rel, call)
+							} else {
+								opaque = true
+							}
+						}
+					}
+					unlist := deletesIn(fn, mt, kt, false)
+					var kept, unlisted []string
+					for _, r := range an.Returns(fn) {
+						if !pathAvoiding(d, r, rel) {
+							continue
+						}
+						if pathAvoiding(d, r, append(append([]ssa.Instruction{}, rel...), unlist...)) {
+							kept = append(kept, w.Pos(r.Pos()))
+						} else {
+							unlisted = append(unlisted, w.Pos(r.Pos()))
+						}
+					}
+					switch {
+					case len(kept) == 0:
+						detail := "every path from the callback to an exit deletes the entry"
+						if len(unlisted) > 0 {
+							detail += " or takes the swap off the watch lists"
+						}
+						c.OK("C16.R6", cons, pos, detail)
+					case opaque:
+						c.Unknown("C16.R6", cons, pos, "a callee deletes the entry only on some of its paths: could not decide whether the exits at "+strings.Join(kept, ", ")+" release the marker")
+					default:
+						c.Bad("C16.R6", cons, pos, "the entry set here before the callback at "+w.Pos(d.Pos())+" makes later scans skip the swap (comma-ok test of the same map), and the exit at "+strings.Join(kept, ", ")+" is reached after the callback without deleting it and without taking the swap off the watch lists: after one failed report (for example a transient store error behind the callback) the swap is skipped forever, the CSV claim never happens and the channel stays locked")
+					}
+				}
+			}
+		}
+	}
+	c.AtLeast("C16.R6", "watcher functions that invoke a registered callback", nFn, 3)
+	if nMarker == 0 {
+		c.OK("C16.R6", "watcher report paths in-flight-markers", "", "no function of the watcher packages sets a map entry before invoking a callback that is tested as a skip")
+	}
 }
